@@ -40,7 +40,7 @@ theorem all_eff_mono {g : G} {w v : Lab} (h : le w v) (ps : List Nat) :
   intro hall p hp; exact eff_mono h p (hall p hp)
 
 theorem upd_self (v : Lab) (c : Nat) : upd v c (v c) = v := by
-  funext y; unfold upd; split <;> simp_all
+  apply Lab.ext; intro y; show (if y = c then v c else v y) = v y; split <;> simp_all
 
 theorem upd_same (v : Lab) (c : Nat) (b : Bool) : upd v c b c = b := by simp [upd]
 theorem upd_other (v : Lab) (c x : Nat) (b : Bool) (h : x ≠ c) : upd v c b x = v x := by simp [upd, h]
